@@ -136,10 +136,46 @@ def _mk_fp(op, a):
     return T(op, a)
 
 
+def _scaled(t):
+    """t == coef * base with a rational coef (linear normalisation helper)"""
+    if t.op == 'mul':
+        if isc(t.a[0]):
+            return t.a[0].v, t.a[1]
+        if isc(t.a[1]):
+            return t.a[1].v, t.a[0]
+    if t.op == 'neg':
+        c, b = _scaled(t.a[0])
+        return -c, b
+    return Fraction(1), t
+
+
+def _scale(c, b):
+    if c == 0:
+        return ZERO
+    if c == 1:
+        return b
+    if c == -1:
+        return T('neg', (b,)) if b.op != 'neg' else b.a[0]
+    k = const(c)
+    return T('mul', (k, b) if k.id <= b.id else (b, k))
+
+
 def mk(op, *a):
     a = [const(x) for x in a]
     if MODE == 'fp':
         return _mk_fp(op, a)
+    if op in ('add', 'sub') and not (isc(a[0]) or isc(a[1])):
+        # c1*b + c2*b -> (c1+c2)*b   (sound over the reals; makes uniform-mesh quantities canonical)
+        c0, b0 = _scaled(a[0])
+        c1, b1 = _scaled(a[1])
+        if b0 is b1:
+            return _scale(c0 + c1 if op == 'add' else c0 - c1, b0)
+    if op == 'mul' and (isc(a[0]) != isc(a[1])):
+        k, x = (a[0], a[1]) if isc(a[0]) else (a[1], a[0])
+        if x.op in ('mul', 'neg'):
+            c, b = _scaled(x)
+            if b is not x:
+                return _scale(k.v * c, b)
     if op in ('add', 'sub', 'mul', 'div', 'min', 'max') and isc(a[0]) and isc(a[1]):
         x, y = a[0].v, a[1].v
         if op == 'add':
